@@ -16,6 +16,8 @@ from commonroad.common.util import FileFormat
 from commonroad.common.writer.file_writer_interface import OverwriteExistingFile
 from commonroad.planning.planning_problem import PlanningProblemSet
 from commonroad.prediction.prediction import TrajectoryPrediction
+from commonroad.scenario.lanelet import LaneletNetwork
+from commonroad.scenario.scenario import Scenario
 from commonroad.scenario.obstacle import DynamicObstacle, StaticObstacle
 
 from crkit import build, gen, geom
@@ -458,6 +460,17 @@ class Run(RunBase):
         gone = [i for i in ids if net.find_lanelet_by_id(i) is None]
         if raised and gone:
             self.probe("map-shrunk:list-removal-interrupted")
+        if op.get("readd") and gone:
+            # the lanelets come back as NEW objects under their old ids (a map update): they know nothing about the
+            # obstacles that were registered on their predecessors
+            specs = {la["id"]: la for la in self.universe["network"]["lanelets"] + list(self.late)}
+            try:
+                for i in gone:
+                    if i in specs:
+                        self.sc.add_objects(build.build_lanelet(specs[i]))
+                self.probe("map-shrunk:lanelets-came-back-under-their-ids")
+            except Exception as e:  # noqa
+                raise Violation(f"C07/add-raised/<-{self.last}", f"adding lanelets raised {type(e).__name__}: {e}")
         victim = op.get("then_remove")
         if victim is not None and victim in self.contained:
             # an obstacle is taken out while its assignment still names lanelets that have just left the map
@@ -516,6 +529,25 @@ class Run(RunBase):
                                "assigned": copy.deepcopy(self.assigned), "grown": set(self.grown)}
                 self.probe("fork-keeps-original")
             self.sc, self.stash = copy.deepcopy((self.sc, self.stash))
+            return "ok"
+        if how == "cutout":
+            # a second scenario is built on a network derived from this one's (create_from_lanelet_network) with copies
+            # of the obstacles, assignments included; the first scenario stays alive next to it
+            self.shadow = {"sc": self.sc, "stash": self.stash, "contained": dict(self.contained),
+                           "assigned": copy.deepcopy(self.assigned), "grown": set(self.grown)}
+            self.probe("fork-by-cut-out")
+            try:
+                old = self.sc
+                new = Scenario(dt=old.dt, scenario_id=copy.deepcopy(old.scenario_id), author=old.author,
+                               tags=set(old.tags or ()), affiliation=old.affiliation, source=old.source,
+                               location=copy.deepcopy(old.location))
+                new.add_objects(LaneletNetwork.create_from_lanelet_network(old.lanelet_network))
+                for ob in self.sc.obstacles:
+                    new.add_objects(copy.deepcopy(ob))
+            except Exception as e:  # noqa
+                raise Violation(f"C07/cutout-raised/<-{self.last}",
+                                f"building a second scenario on a derived network raised {type(e).__name__}: {e}")
+            self.sc, self.stash = new, {}
             return "ok"
         self.shadow = None if not op.get("keep") else self.shadow
         if self.dir is None:
@@ -588,6 +620,7 @@ def _shrinker(rng, run, cfg):
         cands = sorted(i for i, k in run.contained.items() if k in ("static", "dynamic"))
         if cands and rng.chance(0.5):
             op["then_remove"] = rng.pick(cands)
+        op["readd"] = rng.chance(0.4)
         yield op if run.enabled(op) else None
 
 
@@ -631,7 +664,7 @@ def _restarter(rng, run, cfg):
         yield op
 
 
-RESTARTS = ["deepcopy", "xml+assign", "pb+assign", "xml", "pb"]
+RESTARTS = ["deepcopy", "xml+assign", "pb+assign", "xml", "pb", "cutout"]
 
 
 class C07(Property):
@@ -649,7 +682,8 @@ class C07(Property):
                        "pre-assigned-obstacle-added", "footprint-exactly-tangent-to-a-lanelet",
                        "network-grown:single", "network-grown:list", "network-grown:list+refused",
                        "map-shrunk:list-removal-interrupted", "obstacle-removed-after-its-lanelet-left",
-                       "removed-by-an-equal-copy"]
+                       "removed-by-an-equal-copy", "fork-by-cut-out",
+                       "map-shrunk:lanelets-came-back-under-their-ids"]
     assumptions = [
         "geometric truth comes from crkit.geom with its don't-care band; the footprint at a time step is read from the "
         "parameters of occupancy_at_time(t).shape (whether that occupancy is the right placement is C04)",
